@@ -491,7 +491,7 @@ func levelFunc(recv, name string, extra map[string]shim) transFunc {
 	if recv != "" {
 		f.recvAs = levelSelf
 	}
-	if name == "String" || name == "CapitalString" { // `String` is a Lean type
+	if name == "String" || name == "CapitalString" || name == "Enabled" || name == "MarshalText" || name == "Set" { // `String`, `Set` are Lean names
 		f.lean = "Level" + name
 	}
 	return f
@@ -796,6 +796,13 @@ var transSpecs = []transSpec{
 			return f
 		}(),
 		levelFunc("", "ParseLevel", levelUnmarshalOnLocal),
+		levelFunc("Level", "Enabled", nil),
+		levelFunc("Level", "MarshalText", map[string]shim{"recv.String": {kind: "fun", f: "LevelString", res: []string{"string"}}}),
+		func() transFunc {
+			f := levelFunc("Level", "Set", map[string]shim{"recv.UnmarshalText": {kind: "fun", f: "UnmarshalText", res: []string{"error"}}})
+			f.recvNil = "isnil"
+			return f
+		}(),
 		levelFunc("", "LevelOf", map[string]shim{
 			".(leveledEnabler)":    {kind: "extstmt", f: "assert.leveledEnabler", res: []string{"LeveledEnabler", "bool"}},
 			"LeveledEnabler.Level": {kind: "ext", f: "LeveledEnabler.Level", res: []string{"i8"}},
